@@ -429,6 +429,8 @@ def build_objects(inst, variant=None):
         kw[key] = (float(kw[key][0]), float(kw[key][1]))
   par = tbrmmdesignparameters.TBRMMDesignParameters(**kw)
   data = tbrmmdata.TBRMMData(df, 'response', elig_obj)
+  if variant.get('reverse_table_rows'):
+    data.df = data.df.iloc[::-1]      # the same table, rows in another order (rows are found by geo ID)
   if variant.get('preindex', inst['id'] % 5 == 2 and set(variant) <= {'keep', 'no_events'}):
     # the user has looked at the data object first: a geo index (all assignable geos in row order, which is what a
     # searcher will install when nothing is screened out) is already set and the aggregates have been read
@@ -561,6 +563,22 @@ def run_search(inst, which, variant=None):
       mmo = tbrmatchedmarkets.TBRMatchedMarkets(data, par)
     if inst.get('decoy'):
       interfere(mmo)
+    if inst['id'] % 6 == 4:
+      # the same search has been run before, on other objects built from the same inputs, and the caller has written
+      # all over what it got back (its own objects): nothing of that may reach the search under test
+      try:
+        d0, p0, _ = build_objects(inst, {k: v for k, v in variant.items() if k in ('scale',)})
+        m0 = tbrmatchedmarkets.TBRMatchedMarkets(d0, p0)
+        for dsg in (m0.exhaustive_search() if inst['n'] <= 5 else m0.greedy_search()):
+          for arr in (dsg.diag.bbtest.bounds, dsg.diag.y, dsg.diag.x):
+            try:
+              arr *= 0.0
+            except Exception:  # pylint: disable=broad-except
+              pass
+          dsg.treatment_geos.clear()
+          dsg.control_geos.clear()
+      except Exception:  # pylint: disable=broad-except
+        pass
     if inst['id'] % 4 == 1:
       # the caller has looked at the constraint sets first and edited what it was handed (its own objects now)
       for q in ('geos_over_budget', 'geos_too_large', 'geos_must_include', 'geos_within_constraints'):
